@@ -159,7 +159,7 @@ theorem c13_fixup_step [DecidableEq ι] (v : RmVariant) (ident : α → ι) (fla
     (rest : List (Coll G)) (ds : List (ι × ι)) (dead : List ι)
     (htr : List.Forall₂ (Tracks (ids ident s) dead) rest ds) :
     ∃ s' rest' pa pb, processOne v flag res ks s c rest =
-        (s', rest', some ⟨c, some pa, some pb, (res s c).2⟩) ∧
+        (s', rest', some ⟨c, some pa, some pb, (res s c).2, s.nActive, s.ps.length - s.nVar⟩) ∧
       ident pa = a ∧ ident pb = b ∧
       Cfg ks s' ∧ s'.tree = s.tree ∧ (ids ident s').Nodup ∧
       List.Forall₂ (Tracks (ids ident s') (dead ++ remOf a b (res s c).2)) rest' ds ∧
@@ -376,6 +376,31 @@ theorem c13_merge_massless_midpoint (cbrtF : K → K) (t : K) (pi pj : Part K) (
   unfold mergePair
   simp only [sc_hadd, sc_zero, h0, Bool.and_self, if_true, sc_hmul, sc_hdiv, sc_one, sc_ofNat, Nat.cast_ofNat]
   simp [hm]
+
+/-- **energy_offset bookkeeping of a merger** (`track_energy_offset`, collision.c:827-911): what is
+    added to `r->energy_offset` — kinetic energies of the two bodies plus their mutual potential
+    (only when one of them is active) minus the kinetic energy of the merged body — is the
+    kinetic energy of the relative motion, `½·μ·|v_i − v_j|²` with `μ = m_i m_j/(m_i+m_j)`, plus
+    `−G m_i m_j / ρ` where `ρ = sqrt(|x_i − x_j|²)` as libm returns it: exactly the energy that
+    disappears from the N-body system, so `E + energy_offset` keeps its pair terms. -/
+theorem c13_merge_energy_offset (sqrtF cbrtF : K → K) (G t : K) (pot : Bool) (pi pj : Part K)
+    (hm : pi.m + pj.m ≠ 0)
+    (hρ : pot = true → sqrtF ((pi.x - pj.x)*(pi.x - pj.x) + (pi.y - pj.y)*(pi.y - pj.y) + (pi.z - pj.z)*(pi.z - pj.z)) ≠ 0) :
+    mergeEnergy sqrtF G pot pi pj (mergePair false cbrtF t pi pj) =
+      (pi.m * pj.m / (pi.m + pj.m)) / 2 * ((pi.vx - pj.vx)^2 + (pi.vy - pj.vy)^2 + (pi.vz - pj.vz)^2)
+      - (if pot then G * pi.m * pj.m /
+          sqrtF ((pi.x - pj.x)*(pi.x - pj.x) + (pi.y - pj.y)*(pi.y - pj.y) + (pi.z - pj.z)*(pi.z - pj.z)) else 0) := by
+  cases pot
+  · simp only [mergeEnergy, mergePair, sc_hadd, sc_hsub, sc_hmul, sc_hdiv, sc_hneg, sc_one, sc_zero, sc_ofNat,
+      Nat.cast_ofNat, Bool.false_and, Bool.false_eq_true, if_false, zero_add, sub_zero]
+    field_simp
+    ring
+  · have hρ' := hρ rfl
+    simp only [mergeEnergy, mergePair, sc_hadd, sc_hsub, sc_hmul, sc_hdiv, sc_hneg, sc_one, sc_zero, sc_ofNat,
+      Nat.cast_ofNat, Bool.false_and, Bool.false_eq_true, if_false, if_true, zero_add]
+    generalize sqrtF _ = ρ at hρ' ⊢
+    field_simp
+    ring
 
 end merge
 
